@@ -8,10 +8,12 @@ import types
 from harness import coqfmt as cf
 
 PROP = "C03"
-COQ = dict(imports=["Model.Heads", "Spec.C03"], in_ty="c03_in", out_ty="c03_out",
-           corr="corr_C03", decide="check_C03", model="model_C03")
+COQ = dict(imports=["Model.Heads", "Spec.C03"], in_ty="c03_any", out_ty="c03_anyout",
+           corr="corr_C03_any", decide="check_C03_any", model="model_C03_any")
 THEOREMS = ["C03_decider_sound", "C03_step", "C03_invariant", "C03_endpoints", "C03_model_from_empty", "C03_trace",
-            "C03_model_transitions", "C03_upgrade_command", "C03_downgrade_command", "C03_plans_are_valid"]
+            "C03_model_transitions", "C03_upgrade_command", "C03_downgrade_command", "C03_plans_are_valid",
+            "C03_command_sequence", "C03_any_decider_sound", "C03_as_sql_same_statements", "C03_as_sql_same_trace",
+            "C03_offline_invariant", "C03_offline_script"]
 TRUSTED = [
     "SQLite + SQLAlchemy execute the three bookkeeping statements (INSERT / DELETE..WHERE / UPDATE..WHERE) as the "
     "list model says; their matched-row counts are observed (cursor.rowcount) and compared on every statement",
@@ -25,7 +27,9 @@ ASSUME = [
     "down_revision+depends_on (the loader's own checks, property C15), r_ndeps as computed by _normalize_depends_on",
     "steps are valid: an upgrade of r needs all of all_down(r) applied and r not applied; a downgrade of r needs r applied "
     "and no applied revision with r among its all_down (what C01/C02 say about the planners)",
-    "online mode on a dialect with supports_sane_rowcount; offline (--sql) bookkeeping is outside this property's model",
+    "online mode on a dialect with supports_sane_rowcount; offline (--sql) mode: the model carries the as_sql flag (rowcount check "
+    "skipped), the emitted statements are compared with the real as_sql MigrationContext (dialect sqlite); the script text framing "
+    "(CREATE/DROP TABLE, comments, transactions) belongs to C12/C18",
 ]
 RULE = ("quick: EVERY history of <=4 revisions in topological load order where each earlier revision is absent / a "
         "down_revision / a depends_on of each later one (1+3+27+729 graphs, redundant parents included) x EVERY antichain "
@@ -37,7 +41,9 @@ RULE = ("quick: EVERY history of <=4 revisions in topological load order where e
         "primary key, non-antichain rows) where only the model/implementation comparison speaks; version_table name / "
         "version_table_schema (ATTACHed SQLite database) / version_table_pk variants on the real-sequence cases of <=3 revisions, "
         "all 2-command sequences on 2 revisions and the random cases (every command re-reads the rows through the real "
-        "MigrationContext.get_current_heads / _has_version_table). thorough adds the reversed "
+        "MigrationContext.get_current_heads / _has_version_table). OFFLINE (--sql): for every history of <=4 revisions x every antichain starting_rev x every command the real MigrationContext "
+        "in as_sql mode; the statements emitted after every step and the heads given to on_version_apply are compared with the "
+        "model's as_sql run, and the decider replays the emitted script on a table holding starting_rev. thorough adds the reversed "
         "load order, parents that are both down_revision and depends_on, version_table name/schema/pk variants, all "
         "sequences of 3 commands on a sample of 4-revision histories and 10x the random cases. After EVERY step: rows as a "
         "multiset, every statement with its matched-row count, and the exception class are compared with the model; "
@@ -110,6 +116,14 @@ def transition_cases(n, both=False, rev_order=False, cfg=None, replay=False):
             yield {"g": g, "rows0": [], "cmds": cmds, "cfg": cfg, "kind": "replayed-n%d" % n}
 
 
+def offline_cases(n):
+    """--sql mode: one case per (history, antichain S): every command as an offline run with starting_rev = S"""
+    for down, deps in topo_graphs(n):
+        g = _g(n, down, deps)
+        for S in antichains(n, down, deps):
+            yield {"offline": True, "g": g, "rows0": S, "reset": True, "cmds": commands(n), "cfg": None, "kind": "offline-n%d" % n}
+
+
 def sequence_cases(n, length, cfg=None):
     for down, deps in topo_graphs(n):
         g = _g(n, down, deps)
@@ -178,6 +192,8 @@ def generate(tier, seed):
         yield from transition_cases(n)
     for n in (1, 2, 3):
         yield from transition_cases(n, replay=True)
+    for n in (1, 2, 3, 4):
+        yield from offline_cases(n)
     for n in (1, 2, 3):
         for ln in (1, 2, 3):
             if ln * n < 9 or tier == "thorough":
@@ -295,7 +311,83 @@ def select_rows(conn, qual):
     return [_back(r[0]) for r in conn.execute(sa.text("SELECT version_num FROM %s" % qual))]
 
 
+def run_offline(h):
+    """the real MigrationContext in as_sql mode (dialect sqlite, no connection): the statements the HeadMaintainer emits
+    into the script after every step, and the heads handed to on_version_apply"""
+    import io
+    import logging
+    import warnings
+    warnings.simplefilter("ignore")
+    logging.disable(logging.CRITICAL)
+    from alembic.runtime.migration import MigrationContext
+
+    s, m, enc = build(h["g"])
+    cmds_enc, outs, nsteps, errs = [], [], 0, set()
+    for kind, tgt in h["cmds"]:
+        buf = io.StringIO()
+        plan, planerr, obs, pos = [], [], [], [0]
+
+        def fn(heads, ctx):
+            try:
+                f = s._upgrade_revs if kind == "up" else s._downgrade_revs
+                plan.extend(f(tgt, heads))
+            except Exception as e:
+                planerr.append(type(e).__name__)
+            return list(plan)
+
+        def cb(ctx, step, heads, run_args):
+            text = buf.getvalue()[pos[0]:]
+            pos[0] = len(buf.getvalue())
+            stmts = []
+            for line in text.splitlines():
+                line = line.strip()
+                if line.endswith(";") and line.startswith(("INSERT", "UPDATE", "DELETE")):
+                    stmts.append(parse_stmt(line[:-1], 0))
+            obs.append(("ok", sorted(_back(x) for x in heads), stmts))
+
+        ctx = MigrationContext.configure(dialect_name="sqlite", opts={
+            "as_sql": True, "output_buffer": buf, "fn": fn, "on_version_apply": [cb],
+            "starting_rev": [_name(r) for r in h["rows0"]] or None})
+        try:
+            ctx.run_migrations()
+        except Exception as e:
+            cls = err_class(e)
+            errs.add(cls)
+            obs.append(("err", cls))
+        if planerr:
+            errs.add("plan:" + planerr[0])
+        endk = "EndNone"
+        if not planerr and kind == "up" and tgt == "heads":
+            endk = "EndHeads"
+        elif not planerr and kind == "down" and tgt == "base":
+            endk = "EndBase"
+        cmds_enc.append((endk, [(_back(st.revision.revision), bool(st.is_upgrade)) for st in plan]))
+        outs.append(obs)
+        nsteps += len([x for x in obs if x[0] == "ok"])
+
+    def stmt(p):
+        if p[0] == "ins":
+            return "Ins %d" % p[1]
+        if p[0] == "del":
+            return "Del %d 0" % p[1]
+        return "Upd %d %d 0" % (p[1], p[2])
+
+    def ob(x):
+        if x[0] == "ok":
+            return "SOk %s %s" % (cf.nlist(x[1]), cf.lst(stmt(p) for p in x[2]))
+        return "SErr %s" % x[1]
+
+    cin = "COff (%s, %s, true, %s)" % (cf.graph(enc), cf.nlist(h["rows0"]), cf.lst(
+        "(%s, %s)" % (e, cf.lst("RevStep %d %s" % (r, cf.boolean(up)) for r, up in st)) for e, st in cmds_enc))
+    cout = "OOff %s" % cf.lst(cf.lst(ob(x) for x in o) for o in outs)
+    out = {"cmds": [[e, st] for e, st in cmds_enc], "obs": outs}
+    shape = "%s%s" % (h.get("kind", "?"), "-" + "+".join(sorted(errs)) if errs else "")
+    return dict(cin=cin, cout=cout, out=out, nontrivial=nsteps > 0, shape=shape, steps=nsteps)
+
+
 def run_case(h):
+    if h.get("offline"):
+        return run_offline(h)
     import warnings
     import logging
     warnings.simplefilter("ignore")
@@ -394,9 +486,9 @@ def run_case(h):
             return "ObsOk %s %s" % (cf.nlist(x[1]), cf.lst(stmt(p) for p in x[2]))
         return "ObsErr %s" % x[1]
 
-    cin = "(%s, %s, %s, %s)" % (cf.graph(enc), cf.nlist(h["rows0"]), cf.boolean(bool(h.get("reset"))), cf.lst(
+    cin = "COn (%s, %s, %s, %s)" % (cf.graph(enc), cf.nlist(h["rows0"]), cf.boolean(bool(h.get("reset"))), cf.lst(
         "(%s, %s)" % (e, cf.lst("RevStep %d %s" % (r, cf.boolean(up)) for r, up in st)) for e, st in cmds_enc))
-    cout = cf.lst(cf.lst(ob(x) for x in o) for o in outs)
+    cout = "OOn %s" % cf.lst(cf.lst(ob(x) for x in o) for o in outs)
     out = {"cmds": [[e, st] for e, st in cmds_enc], "obs": outs, "ndeps": {r["id"]: r["ndeps"] for r in enc if r["ndeps"]}}
     cfg = h.get("cfg")
     shape = "%s%s%s" % (h.get("kind", "?"), "" if not cfg else "-cfg:%s/%s/%s" % (cfg["table"], cfg["schema"], "pk" if cfg["pk"] else "nopk"),
